@@ -420,3 +420,93 @@ B("b-drain-extracted-helper", ["C03", "C04", "C06"],
 B("b-clear-by-rebinding-deque", ["C03", "C04", "C06"],
   E(ASYNC, "                        self._external_queue.clear()", "                        self._external_queue = deque()"),
   E(ASYNC, "from typing import TYPE_CHECKING\n", "from collections import deque\nfrom typing import TYPE_CHECKING\n"))
+
+# ----------------------------------------------------------------------------------------- C04
+M("c04-sync-no-clear", ["C04"], ["C04.clear"],
+  E(SYNC, """                        self._external_queue.clear()
+                        raise""", """                        raise"""), note="properties.jsonl: verified to pass all 348 tests")
+M("c04-async-no-clear", ["C04", "C05"], ["C04.clear", "C05.sibling"],
+  E(ASYNC, """                        self._external_queue.clear()
+                        raise""", """                        raise"""), note="properties.jsonl: verified to pass all 348 tests")
+M("c04-sync-release-outside-finally", ["C04"], ["C04.release"],
+  E(SYNC, """            finally:
+                self._processing.release()
+""", """            finally:
+                pass
+            self._processing.release()
+"""))
+M("c04-async-swallow-exception", ["C04"], ["C04.clear", "C04.noswallow"],
+  E(ASYNC, """                        self._external_queue.clear()
+                        raise""", """                        self._external_queue.clear()
+                        break"""))
+M("c04-sync-swallow-in-activate", ["C04", "C01"], ["C04.noswallow", "C04.state", "C01.reject"],
+  E(SYNC, """        self.sm._callbacks.call(transition.after.key, *args, **kwargs)
+
+        if len(result) == 0:""", """        try:
+            self.sm._callbacks.call(transition.after.key, *args, **kwargs)
+        except Exception:
+            pass
+
+        if len(result) == 0:"""))
+M("c04-sync-rollback-on-failure", ["C04"], ["C04.state"],
+  E(SYNC, """                    except Exception:
+                        # Whe clear the queue as we don't have an expected behavior
+                        # and cannot keep processing
+                        self._external_queue.clear()
+                        raise""", """                    except Exception:
+                        # Whe clear the queue as we don't have an expected behavior
+                        # and cannot keep processing
+                        self._external_queue.clear()
+                        self.sm.current_state = self.sm.initial_state
+                        raise"""))
+M("c04-processing-flag", ["C04"], ["C04.nosticky"],
+  E(SYNC, """                    trigger_data = self._external_queue.popleft()
+                    try:""", """                    trigger_data = self._external_queue.popleft()
+                    self._busy = True
+                    try:"""))
+M("c04-clear-only-on-notallowed", ["C04"], ["C04.clear"],
+  E(SYNC, """                    except Exception:
+                        # Whe clear the queue as we don't have an expected behavior
+                        # and cannot keep processing
+                        self._external_queue.clear()
+                        raise""", """                    except TransitionNotAllowed:
+                        # Whe clear the queue as we don't have an expected behavior
+                        # and cannot keep processing
+                        self._external_queue.clear()
+                        raise"""))
+M("c04-raise-different-exception", ["C04"], ["C04.clear"],
+  E(ASYNC, """                        self._external_queue.clear()
+                        raise""", """                        self._external_queue.clear()
+                        raise RuntimeError("processing failed")"""))
+
+# ----------------------------------------------------------------------------------------- C06
+M("c06-no-recheck-after-release", ["C06"], ["C06.recheck"],
+  E(SYNC, """            if not self._external_queue or not self._processing.acquire(blocking=False):
+                break""", """            break"""), note="re-introduces F10 on the sync engine")
+M("c06-async-no-recheck-after-release", ["C06", "C05"], ["C06.recheck", "C05.sibling"],
+  E(ASYNC, """            if not self._external_queue or not self._processing.acquire(blocking=False):
+                break""", """            break"""))
+M("c06-async-await-in-window", ["C06"], ["C06.atomic-async"],
+  E(ASYNC, """            finally:
+                self._processing.release()
+""", """            finally:
+                await asyncio.sleep(0)
+                self._processing.release()
+"""),
+  E(ASYNC, "from typing import TYPE_CHECKING\n", "import asyncio\nfrom typing import TYPE_CHECKING\n"))
+M("c06-queue-peek-index", ["C06"], ["C06.prims"],
+  E(SYNC, """                    trigger_data = self._external_queue.popleft()
+                    try:""", """                    trigger_data = self._external_queue[0]
+                    self._external_queue.popleft()
+                    try:"""))
+M("c06-pop-before-acquire", ["C06", "C03"], ["C06.mutex", "C03.elect"],
+  E(ASYNC, """        if not self._processing.acquire(blocking=False):
+            return None
+""", """        pending = self._external_queue.popleft() if self._external_queue else None
+        if not self._processing.acquire(blocking=False):
+            if pending is not None:
+                self._external_queue.append(pending)
+            return None
+        if pending is not None:
+            self._external_queue.appendleft(pending)
+"""))
